@@ -937,7 +937,10 @@ impl Cx<'_> {
         // `#[ts(as = "Other")]` (+ `inline`): the binding - and the dependencies - are those of the
         // other type, the field's own type does not show
         // (more often on unnamed fields: a newtype has a code path of its own)
-        if self.p.field_as > 0 && f.type_override.is_none() && !f.as_same && f.optional.is_none() && !f.flatten && t.pct(self.p.field_as * if named { 1 } else { 4 }) {
+        // (not on a field that mentions a type parameter: `as` hides the parameter from the derive,
+        // and a parameter no binding uses needs `#[ts(bound)]` - outside the generated fragment)
+        let uses_param = params.iter().any(|p| mentions_param(&f.ty, &p.name));
+        if self.p.field_as > 0 && !uses_param && f.type_override.is_none() && !f.as_same && f.optional.is_none() && !f.flatten && t.pct(self.p.field_as * if named { 1 } else { 4 }) {
             let cands: Vec<usize> = (0..self.types.len()).filter(|i| self.types[*i].params.is_empty() && self.types[*i].lifetimes.is_empty() && self.types[*i].consts.is_empty()).collect();
             if !cands.is_empty() {
                 let u = TyExpr::User(*t.pick(&cands), vec![]);
@@ -1194,7 +1197,14 @@ impl Cx<'_> {
                         VBody::Newtype(f) => !f.skip,
                         VBody::Tuple(fs) | VBody::Named(fs) => !fs.is_empty(),
                     };
-                    if plain_payload && v.rename_all.is_none() && !cands.is_empty() && t.pct(self.p.variant_as) {
+                    // (`as` hides the payload from the derive: a type parameter only the payload uses
+                    // would be left without a bound)
+                    let hides_param = match &v.body {
+                        VBody::Unit => false,
+                        VBody::Newtype(f) => params.iter().any(|p| mentions_param(&f.ty, &p.name)),
+                        VBody::Tuple(fs) | VBody::Named(fs) => fs.iter().any(|f| params.iter().any(|p| mentions_param(&f.ty, &p.name))),
+                    };
+                    if plain_payload && !hides_param && v.rename_all.is_none() && !cands.is_empty() && t.pct(self.p.variant_as) {
                         let u = TyExpr::User(*t.pick(&cands), vec![]);
                         v.as_type = Some(match t.choose(3) {
                             0 => TyExpr::Vec(Box::new(u)),
